@@ -40,7 +40,11 @@ def run(ctx):
     rep.guarded("owned-state", "anstream::adapter", lambda: rule_owned(facts, rep))
     rep.guarded("same-start", "anstream::adapter", lambda: rule_same_start(facts, rep))
     rep.guarded("byte-at-a-time", AD + "wincon::next_bytes", lambda: rule_byte_at_a_time(facts, rep))
-    rep.guarded("W1", "anstream::strip::write", lambda: stripstream.rule_W1_W3(facts, rep))
+    # of the strip stream's short-write rules only W1 (the state replayed matches the bytes reported as consumed) belongs to this
+    # property; the count rules (W3) are C06's
+    import core
+    w1 = core.Filtered(rep, lambda rule, anchor, instance: rule == "W1")
+    rep.guarded("W1", "anstream::strip::write", lambda: stripstream.rule_W1_W3(facts, w1))
     rep.guarded("through", "anstream::strip", lambda: stripstream.rule_through(facts, rep, "through"))
     rep.guarded("who-writes", "anstream::adapter", lambda: rule_who_writes(facts, rep))
     for r, n in (("S1", 7), ("S2", 8), ("owned-state", 9), ("same-start", 6), ("byte-at-a-time", 5), ("W1", 4), ("through", 7), ("who-writes", 3)):
